@@ -104,17 +104,16 @@ Variable g : grammar.
 Variable input : list N.
 Variable orc : nat -> nat -> option nat.
 Variable x : sctx.
-Hypothesis Hx_eol : x_eol x = false.
 Hypothesis Hx_cmt : x_incmt x = false.
 Hypothesis Hcm : g_comments g = None.
 Hypothesis Horc : orc_pos orc.
 
 Record inv (s : st) : Prop := mkInv {
-  inv_ws : ws s = x_ws x; inv_skip : skipws s = x_skip x; inv_cmt : in_cmt s = false;
-  inv_cpos : cpos_id (cpos s); inv_eol : eolterm s = false }.
+  inv_ws : ws s = eff_ws x; inv_skip : skipws s = x_skip x; inv_cmt : in_cmt s = false;
+  inv_cpos : cpos_id (cpos s); inv_eol : eolterm s = x_eol x; inv_real : real_ws s = x_ws x }.
 
 Lemma inv_set_pos p s : inv s -> inv (set_pos p s).
-Proof. intros [H1 H2 H3 H4 H5]. constructor; assumption. Qed.
+Proof. intros [H1 H2 H3 H4 H5 H6]. constructor; assumption. Qed.
 
 Definition valid (nid : nat) : Prop := nid < length (g_nodes g).
 
@@ -140,12 +139,11 @@ Lemma match_pre_sim rec k s :
   exists s1, match_pre g input rec k s = Ok RNone s1 /\ inv s1 /\
              pos s1 = (if x_skip x then sws input x (pos s) else pos s) /\ pos s <= pos s1.
 Proof.
-  intros [H1 H2 H3 H4 H5]. unfold match_pre, maybe_skip_ws. rewrite H2.
-  assert (Eeff : eff_ws x = x_ws x) by (unfold eff_ws; rewrite Hx_eol; reflexivity).
+  intros [H1 H2 H3 H4 H5 H6]. unfold match_pre, maybe_skip_ws. rewrite H2.
   destruct (x_skip x) eqn:Esk.
   - unfold do_skip_ws. cbn [skipws set_pos cpos pos in_cmt ws].
     set (p1 := skip_ws_from (ws s) (skipn (pos s) input) (pos s)).
-    assert (Ep1 : p1 = sws input x (pos s)) by (unfold sws; rewrite Eeff, <- H1; reflexivity).
+    assert (Ep1 : p1 = sws input x (pos s)) by (unfold sws; rewrite <- H1; reflexivity).
     assert (Hge : pos s <= p1) by apply skip_ws_from_ge.
     rewrite H2. destruct (lookup p1 (cpos s)) as [q|] eqn:EL.
     + apply (cpos_id_lookup _ _ _ H4) in EL. subst q.
@@ -380,7 +378,7 @@ Qed.
 
 Lemma inv_reg_fail p s : inv s -> inv (reg_fail p s).
 Proof.
-  intros [H1 H2 H3 H4 H5]. unfold reg_fail. destruct (nm s) as [q|].
+  intros [H1 H2 H3 H4 H5 H6]. unfold reg_fail. destruct (nm s) as [q|].
   - rewrite H3. destruct (Nat.ltb q p); constructor; cbn; assumption.
   - constructor; cbn; assumption.
 Qed.
@@ -449,26 +447,78 @@ Lemma head_not_none_of_truthy acc : Forall (fun r => truthy r = true) acc -> hea
 Proof. intro H. destruct acc as [|a l]; [reflexivity|]. inversion H; subst. destruct a; [discriminate | reflexivity | reflexivity]. Qed.
 
 (* ---------------------------------------------------------------- whitespace contexts *)
-Definition okx (x : sctx) : Prop := x_eol x = false /\ x_incmt x = false.
+Lemma strip_eol_idem w : strip_eol (strip_eol w) = strip_eol w.
+Proof.
+  unfold strip_eol. induction w as [|c w IH]; [reflexivity|]. cbn [filter].
+  destruct (negb (N.eqb c 10 || N.eqb c 13)) eqn:E; [|exact IH]. cbn [filter]. rewrite E, IH. reflexivity.
+Qed.
 
-Lemma okx_enter nd x : okx x -> okx (ctx_enter nd x).
+(* contexts that occur: not inside comment parsing; inside an eolterm repetition only when the table has no
+   rule-level ws modifier at all *)
+Definition okx (g : grammar) (x : sctx) : Prop := x_incmt x = false /\ (x_eol x = true -> nows g = true).
+
+Lemma okx_enter g nd x : okx g x -> okx g (ctx_enter nd x).
 Proof. intros [A B]. split; assumption. Qed.
+
+Lemma okx_eol g nd x : okx g x -> (n_eolterm nd = true -> nows g = true) -> okx g (ctx_eol nd x).
+Proof.
+  intros [A B] H. unfold ctx_eol. destruct (n_eolterm nd) eqn:E; [|split; assumption].
+  split; [exact A|]. intros _. apply H. reflexivity.
+Qed.
+
+Lemma nows_node g nd : nows g = true -> In nd (g_nodes g) -> n_ws nd = None.
+Proof.
+  unfold nows. intros H Hin. rewrite forallb_forall in H. specialize (H nd Hin). destruct (n_ws nd); [discriminate | reflexivity].
+Qed.
 
 Lemma enter_ws_pos nd s : pos (enter_ws nd s) = pos s.
 Proof. unfold enter_ws. destruct (n_ws nd), (n_skipws nd); reflexivity. Qed.
 Lemma leave_ws_pos nd s s1 : pos (leave_ws nd s s1) = pos s1.
 Proof. unfold leave_ws. destruct (n_ws nd), (n_skipws nd); reflexivity. Qed.
+Lemma enter_eol_pos nd s : pos (enter_eol nd s) = pos s.
+Proof. unfold enter_eol. destruct (n_eolterm nd); reflexivity. Qed.
+Lemma leave_eol_pos nd s s1 : pos (leave_eol nd s s1) = pos s1.
+Proof. unfold leave_eol. destruct (n_eolterm nd); reflexivity. Qed.
 
-Lemma enter_ws_inv x nd s : inv x s -> inv (ctx_enter nd x) (enter_ws nd s).
+Lemma enter_ws_inv x nd s : inv x s -> (n_ws nd = None \/ x_eol x = false) -> inv (ctx_enter nd x) (enter_ws nd s).
 Proof.
-  intros [H1 H2 H3 H4 H5]. unfold enter_ws, ctx_enter, set_ws, set_skipws.
-  destruct (n_ws nd), (n_skipws nd); constructor; cbn; try rewrite H5; try assumption; reflexivity.
+  destruct x as [xw xs xe xi]. intros [H1 H2 H3 H4 H5 H6] Hc.
+  unfold enter_ws, ctx_enter, set_ws, set_skipws, eff_ws in *. cbn [x_ws x_skip x_eol x_incmt] in *.
+  destruct (n_ws nd) as [w|] eqn:Ew.
+  - destruct Hc as [X|X]; [discriminate|]. rewrite X in *. cbv iota in *.
+    destruct (n_skipws nd); constructor; cbn [ws skipws in_cmt cpos eolterm real_ws x_ws x_skip x_eol eff_ws];
+      try rewrite H5; try assumption; reflexivity.
+  - destruct (n_skipws nd); constructor; cbn [ws skipws in_cmt cpos eolterm real_ws x_ws x_skip x_eol eff_ws]; try assumption; reflexivity.
 Qed.
 
-Lemma leave_ws_inv x nd s s1 : inv x s -> inv (ctx_enter nd x) s1 -> inv x (leave_ws nd s s1).
+Lemma leave_ws_inv x nd s s1 :
+  inv x s -> (n_ws nd = None \/ x_eol x = false) -> inv (ctx_enter nd x) s1 -> inv x (leave_ws nd s s1).
 Proof.
-  intros [H1 H2 H3 H4 H5] [G1 G2 G3 G4 G5]. unfold leave_ws, set_ws, set_skipws. unfold ctx_enter in G1, G2. cbn in G1, G2.
-  destruct (n_ws nd), (n_skipws nd); constructor; cbn; try rewrite G5; try assumption; reflexivity.
+  destruct x as [xw xs xe xi]. intros [H1 H2 H3 H4 H5 H6] Hc [G1 G2 G3 G4 G5 G6]. unfold leave_ws, set_ws, set_skipws.
+  unfold ctx_enter, eff_ws in *. cbn [x_ws x_skip x_eol x_incmt] in *.
+  destruct (n_ws nd) as [w|] eqn:Ew.
+  - destruct Hc as [X|X]; [discriminate|]. rewrite X in *. cbv iota in *.
+    destruct (n_skipws nd); constructor; cbn [ws skipws in_cmt cpos eolterm real_ws x_ws x_skip x_eol eff_ws];
+      try rewrite G5; try assumption; try reflexivity.
+  - destruct (n_skipws nd); constructor; cbn [ws skipws in_cmt cpos eolterm real_ws x_ws x_skip x_eol eff_ws]; try assumption; reflexivity.
+Qed.
+
+Lemma enter_eol_inv x nd s : inv x s -> inv (ctx_eol nd x) (enter_eol nd s).
+Proof.
+  destruct x as [xw xs xe xi]. intros [H1 H2 H3 H4 H5 H6]. unfold enter_eol, ctx_eol.
+  destruct (n_eolterm nd); [|constructor; assumption].
+  unfold set_eolterm, eff_ws in *. cbn [x_ws x_skip x_eol x_incmt] in *.
+  constructor; cbn [ws skipws in_cmt cpos eolterm real_ws x_ws x_skip x_eol eff_ws]; try assumption; try reflexivity.
+  rewrite H1. destruct xe; [apply strip_eol_idem | reflexivity].
+Qed.
+
+Lemma leave_eol_inv x nd s s1 : inv x s -> inv (ctx_eol nd x) s1 -> inv x (leave_eol nd s s1).
+Proof.
+  destruct x as [xw xs xe xi]. intros [H1 H2 H3 H4 H5 H6] [G1 G2 G3 G4 G5 G6]. unfold leave_eol. unfold ctx_eol in *.
+  destruct (n_eolterm nd); [|constructor; assumption].
+  unfold set_eolterm, eff_ws in *. cbn [x_ws x_skip x_eol x_incmt] in *. rewrite H5.
+  constructor; cbn [ws skipws in_cmt cpos eolterm real_ws x_ws x_skip x_eol eff_ws]; try assumption; try reflexivity.
+  destruct xe; [rewrite G1; apply strip_eol_idem | exact G6].
 Qed.
 
 Section Refine2.
@@ -479,7 +529,7 @@ Hypothesis Hcm : g_comments g = None.
 Hypothesis Horc : orc_pos orc.
 
 Definition sim_all (rec : nat -> bool -> st -> out) (srec : nat -> bool -> sctx -> nat -> sres) : Prop :=
-  forall x, okx x -> sim g x rec srec.
+  forall x, okx g x -> sim g x rec srec.
 
 (* what body_sim concludes *)
 Definition body_post (x : sctx) (nd : node) (s : st) (r : res) (s' : st) (ts : list stree) : Prop :=
@@ -500,7 +550,8 @@ Proof.
 Qed.
 
 Lemma body_sim rec srec k nd pf x s :
-  sim_all rec srec -> okx x -> node_ok g (prodb g pf) nd = true ->
+  sim_all rec srec -> okx g x -> node_ok g (prodb g pf) nd = true -> In nd (g_nodes g) ->
+  (n_eolterm nd = true -> nows g = true) ->
   inv x s -> is_match_kind (n_kind nd) = false ->
   match body rec k nd s with
   | Ok r s' => exists ts, sbody true srec k nd x (pos s) = SOk ts (pos s') /\ body_post x nd s r s' ts
@@ -508,21 +559,22 @@ Lemma body_sim rec srec k nd pf x s :
   | Abort _ => True
   end.
 Proof.
-  intros Hall Hokx Hok Hinv Hnm. unfold node_ok in Hok.
+  intros Hall Hokx Hok Hnd Heolg Hinv Hnm. unfold node_ok in Hok.
   pose proof (Hall x Hokx) as Hsim.
+  assert (Hwsc : n_ws nd = None \/ x_eol x = false).
+  { destruct (x_eol x) eqn:Ee; [left; apply (nows_node g nd); [apply (proj2 Hokx); exact Ee | exact Hnd] | right; reflexivity]. }
   assert (Hpr : forall c, prodb g pf c = true -> exists j, prodb g j c = true) by (intros c Hc; exists pf; exact Hc).
   apply andb_true_iff in Hok as [Hok Hkind]. apply andb_true_iff in Hok as [Hok Hkids].
   apply andb_true_iff in Hok as [Hok Hmods]. apply andb_true_iff in Hok as [Hsepok Heol].
-  apply negb_true_iff in Heol.
   assert (Hval : Forall (valid g) (n_kids nd)).
   { apply Forall_forall. intros c Hc. rewrite forallb_forall in Hkids. specialize (Hkids c Hc). apply Nat.ltb_lt in Hkids. exact Hkids. }
   unfold body, sbody.
   destruct (n_kind nd) eqn:Ek; try discriminate.
   - (* KSeq *)
     set (x' := ctx_enter nd x). set (s0 := enter_ws nd s).
-    assert (Hinv0 : inv x' s0) by (apply enter_ws_inv; exact Hinv).
+    assert (Hinv0 : inv x' s0) by (apply enter_ws_inv; assumption).
     assert (Hp0 : pos s0 = pos s) by apply enter_ws_pos.
-    pose proof (seq_sim g x' rec srec true (n_kids nd) (Hall x' (okx_enter nd x Hokx)) Hval [] [] s0 Hinv0 eq_refl (Forall_nil _) (Forall_nil _)) as HS.
+    pose proof (seq_sim g x' rec srec true (n_kids nd) (Hall x' (okx_enter g nd x Hokx)) Hval [] [] s0 Hinv0 eq_refl (Forall_nil _) (Forall_nil _)) as HS.
     rewrite Hp0 in HS.
     destruct (seq_loop rec true (n_kids nd) [] s0) as [r s1|s1|w] eqn:E.
     + destruct HS as [acc' [ts [Er [Es [Ee [Hcl [Hinv1 [Hle [Htr [_ Hprod]]]]]]]]]]. subst r.
@@ -541,16 +593,16 @@ Proof.
       * exists ts. rewrite leave_ws_pos. split; [exact Es|]. apply Hpost; try reflexivity. constructor.
       * exists ts. rewrite leave_ws_pos. split; [exact Es|]. apply Hpost; try reflexivity; try exact Hcl.
         apply head_not_none_of_truthy. exact Htr.
-    + destruct HS as [Es Hinv1]. split; [exact Es|]. apply leave_ws_inv; [exact Hinv | apply inv_set_pos; exact Hinv1].
+    + destruct HS as [Es Hinv1]. split; [exact Es|]. apply leave_ws_inv; [exact Hinv | exact Hwsc | apply inv_set_pos; exact Hinv1].
     + exact I.
   - (* KChoice *)
     set (x' := ctx_enter nd x). set (s0 := enter_ws nd s).
-    assert (Hinv0 : inv x' s0) by (apply enter_ws_inv; exact Hinv).
+    assert (Hinv0 : inv x' s0) by (apply enter_ws_inv; assumption).
     assert (Hp0 : pos s0 = pos s) by apply enter_ws_pos.
     apply andb_true_iff in Hkind as [Hall' Hne].
     assert (Hprodk : forall c, In c (n_kids nd) -> exists j, prodb g j c = true).
     { intros c Hc. apply Hpr. rewrite forallb_forall in Hall'. apply Hall'. exact Hc. }
-    pose proof (choice_sim g x' rec srec (pos s) (n_kids nd) (Hall x' (okx_enter nd x Hokx)) Hval Hprodk s0 Hinv0 Hp0) as HS.
+    pose proof (choice_sim g x' rec srec (pos s) (n_kids nd) (Hall x' (okx_enter g nd x Hokx)) Hval Hprodk s0 Hinv0 Hp0) as HS.
     destruct (choice_loop rec (pos s) (n_kids nd) s0) as [r s1|s1|w] eqn:E.
     + destruct HS as [[Hnn [ts [Es [Ee [Hcl [Hinv1 [Hlt Hne']]]]]]] | [Hn [Es Hinv1]]].
       * rewrite Hnn. exists ts. rewrite leave_ws_pos. split; [exact Es|]. unfold body_post.
@@ -587,36 +639,42 @@ Proof.
   - (* KStar *)
     destruct (n_kids nd) as [|e rest] eqn:Ekids; [discriminate|].
     inversion Hval as [|? ? He _]; subst.
-    unfold enter_eol, leave_eol. rewrite Heol. unfold ctx_eol. rewrite Heol.
+    set (x' := ctx_eol nd x). set (s0 := enter_eol nd s).
+    assert (Hinv0 : inv x' s0) by (apply enter_eol_inv; exact Hinv).
+    assert (Hp0 : pos s0 = pos s) by apply enter_eol_pos.
     assert (Hsepv : forall sp, n_sep nd = Some sp -> valid g sp).
     { intros sp E. unfold sep_ok in Hsepok. rewrite E, Ek in Hsepok. apply Nat.ltb_lt in Hsepok. exact Hsepok. }
-    pose proof (rep_sim g x rec srec e (n_sep nd) false Hsim He (Hpr e Hkind) Hsepv k true [] [] s Hinv eq_refl (Forall_nil _) (Forall_nil _)) as HS.
-    destruct (rep_loop rec e (n_sep nd) false k true [] s) as [r s1|s1|w] eqn:E.
+    pose proof (rep_sim g x' rec srec e (n_sep nd) false (Hall x' (okx_eol g nd x Hokx Heolg)) He (Hpr e Hkind) Hsepv k true [] [] s0 Hinv0 eq_refl (Forall_nil _) (Forall_nil _)) as HS.
+    rewrite Hp0 in HS.
+    destruct (rep_loop rec e (n_sep nd) false k true [] s0) as [r s1|s1|w] eqn:E.
     + destruct HS as [ts [Es [acc' [Er [Ee [Hcl [Hinv1 [Hle [Htr [_ [Hdich _]]]]]]]]]]]. subst r.
-      exists ts. split; [exact Es|]. unfold body_post.
-      split; [exact Ee|]. split; [exact Hcl|]. split; [exact Hinv1|]. split; [exact Hle|]. split; [reflexivity|].
+      exists ts. rewrite leave_eol_pos. split; [exact Es|]. unfold body_post. rewrite leave_eol_pos.
+      split; [exact Ee|]. split; [exact Hcl|]. split; [apply leave_eol_inv; assumption|]. split; [lia|]. split; [reflexivity|].
       rewrite (head_not_none_of_truthy _ Htr).
       split; [discriminate|]. split.
       * intros _ X. destruct (Hdich eq_refl) as [[-> ->]|Y]; [|contradiction].
         split; [reflexivity|]. split; [reflexivity | right; exact Ek].
       * intros j Hj. unfold prod_nd in Hj. rewrite Ek in Hj. rewrite andb_false_r in Hj. discriminate.
-    + destruct HS as [Es Hinv1]. split; [exact Es | exact Hinv1].
+    + destruct HS as [Es Hinv1]. split; [exact Es | apply leave_eol_inv; assumption].
     + exact I.
   - (* KPlus *)
     destruct (n_kids nd) as [|e rest] eqn:Ekids; [discriminate|].
     inversion Hval as [|? ? He _]; subst.
-    unfold enter_eol, leave_eol. rewrite Heol. unfold ctx_eol. rewrite Heol.
+    set (x' := ctx_eol nd x). set (s0 := enter_eol nd s).
+    assert (Hinv0 : inv x' s0) by (apply enter_eol_inv; exact Hinv).
+    assert (Hp0 : pos s0 = pos s) by apply enter_eol_pos.
     assert (Hsepv : forall sp, n_sep nd = Some sp -> valid g sp).
     { intros sp E. unfold sep_ok in Hsepok. rewrite E, Ek in Hsepok. apply Nat.ltb_lt in Hsepok. exact Hsepok. }
-    pose proof (rep_sim g x rec srec e (n_sep nd) true Hsim He (Hpr e Hkind) Hsepv k true [] [] s Hinv eq_refl (Forall_nil _) (Forall_nil _)) as HS.
-    destruct (rep_loop rec e (n_sep nd) true k true [] s) as [r s1|s1|w] eqn:E.
+    pose proof (rep_sim g x' rec srec e (n_sep nd) true (Hall x' (okx_eol g nd x Hokx Heolg)) He (Hpr e Hkind) Hsepv k true [] [] s0 Hinv0 eq_refl (Forall_nil _) (Forall_nil _)) as HS.
+    rewrite Hp0 in HS.
+    destruct (rep_loop rec e (n_sep nd) true k true [] s0) as [r s1|s1|w] eqn:E.
     + destruct HS as [ts [Es [acc' [Er [Ee [Hcl [Hinv1 [Hle [Htr [_ [_ Hpf]]]]]]]]]]]. subst r.
       destruct (Hpf eq_refl) as [Hne Hlt].
-      exists ts. split; [exact Es|]. unfold body_post.
-      split; [exact Ee|]. split; [exact Hcl|]. split; [exact Hinv1|]. split; [exact Hle|]. split; [reflexivity|].
+      exists ts. rewrite leave_eol_pos. split; [exact Es|]. unfold body_post. rewrite leave_eol_pos.
+      split; [exact Ee|]. split; [exact Hcl|]. split; [apply leave_eol_inv; assumption|]. split; [lia|]. split; [reflexivity|].
       rewrite (head_not_none_of_truthy _ Htr).
-      split; [discriminate|]. split; [intros _ X; contradiction|]. intros _ _. split; [exact Hne | exact Hlt].
-    + destruct HS as [Es Hinv1]. split; [exact Es | exact Hinv1].
+      split; [discriminate|]. split; [intros _ X; contradiction|]. intros _ _. split; [exact Hne | lia].
+    + destruct HS as [Es Hinv1]. split; [exact Es | apply leave_eol_inv; assumption].
     + exact I.
   - (* KAnd *)
     apply negb_true_iff in Hkind.
@@ -645,18 +703,19 @@ Qed.
 
 Variable pf : nat.
 Hypothesis Hwf : forall nid nd, get_node g nid = Some nd -> node_ok g (prodb g pf) nd = true.
+Hypothesis Heolws : eol_ws_ok g = true.
 
 Lemma parse_sim : forall f, sim_all (parse g input orc false f) (seval g input orc true f).
 Proof.
   induction f as [|f IH]; intros x Hokx nid psq s Hinv Hv.
   - cbn. exact I.
-  - destruct Hokx as [Hx_eol Hx_cmt]. cbn [parse seval].
+  - pose proof Hokx as [Hx_cmt Hx_eol]. cbn [parse seval].
     destruct (get_node g nid) as [nd|] eqn:En.
     2:{ exfalso. unfold get_node in En. apply nth_error_None in En. unfold valid in Hv. lia. }
     pose proof (Hwf _ _ En) as Hok.
     destruct (is_match_kind (n_kind nd)) eqn:Em.
     + (* terminals *)
-      destruct (match_pre_sim g input x Hx_eol Hcm (parse g input orc false f) f s Hinv) as [s1 [Emp [Hinv1 [Hp1 Hle1]]]]. rewrite Emp.
+      destruct (match_pre_sim g input x Hcm (parse g input orc false f) f s Hinv) as [s1 [Emp [Hinv1 [Hp1 Hle1]]]]. rewrite Emp.
       assert (Esk : skip g input (seval g input orc true f) f x (pos s) = Some (pos s1)).
       { unfold skip. rewrite Hx_cmt, Hcm, Hp1. destruct (x_skip x); reflexivity. }
       rewrite Esk.
@@ -679,7 +738,11 @@ Proof.
       * exact I.
     + (* non-terminals; memoization is off *)
       cbv iota.
-      pose proof (body_sim (parse g input orc false f) (seval g input orc true f) f nd pf x s IH (conj Hx_eol Hx_cmt) Hok Hinv Em) as HB.
+      assert (Hnd : In nd (g_nodes g)) by (unfold get_node in En; apply nth_error_In in En; exact En).
+      assert (Heolg : n_eolterm nd = true -> nows g = true).
+      { intro X. unfold eol_ws_ok in Heolws. apply orb_true_iff in Heolws as [A|A]; [|exact A].
+        rewrite forallb_forall in A. specialize (A nd Hnd). rewrite X in A. discriminate. }
+      pose proof (body_sim (parse g input orc false f) (seval g input orc true f) f nd pf x s IH Hokx Hok Hnd Heolg Hinv Em) as HB.
       destruct (body (parse g input orc false f) f nd s) as [r s1|s1|w] eqn:Eb.
       * destruct HB as [ts [Es [Ee [Hcl [Hinv1 [Hle [Hpt [Hhead [Hroot Hprod]]]]]]]]]. rewrite Es.
         unfold post, wrap.
@@ -731,13 +794,16 @@ Lemma wfg_parts g pf :
   (forall nid nd, get_node g nid = Some nd -> node_ok g (prodb g pf) nd = true) /\
   g_comments g = None /\ g_top g < length (g_nodes g).
 Proof.
-  unfold wfg. cbv zeta. intro H. apply andb_true_iff in H as [H Htop]. apply andb_true_iff in H as [Hall Hc].
+  unfold wfg. cbv zeta. intro H. apply andb_true_iff in H as [H _]. apply andb_true_iff in H as [H Htop]. apply andb_true_iff in H as [Hall Hc].
   split; [|split].
   - intros nid nd En. rewrite forallb_forall in Hall. unfold get_node in En. apply nth_error_In in En.
     exact (Hall nd En).
   - destruct (g_comments g); [discriminate | reflexivity].
   - apply Nat.ltb_lt. exact Htop.
 Qed.
+
+Lemma wfg_eolws g pf : wfg g pf = true -> eol_ws_ok g = true.
+Proof. unfold wfg. intro H. apply andb_true_iff in H as [_ H]. exact H. Qed.
 
 (* Inside the class, whenever the interpreter terminates within the fuel, it accepts exactly when
    the reference semantics accept, with the same parse tree. *)
@@ -752,7 +818,8 @@ Proof.
   intros Hwf Horc. destruct (wfg_parts g pf Hwf) as [Hnodes [Hcm Htop]].
   assert (Hinv : inv (init_ctx c) (init_st c)).
   { constructor; cbn; try reflexivity. constructor. }
-  pose proof (parse_sim g input orc Hcm Horc pf Hnodes fuel (init_ctx c) (conj eq_refl eq_refl) (g_top g) false (init_st c) Hinv Htop) as HS.
+  assert (Hok0 : okx g (init_ctx c)) by (split; [reflexivity | intro X; discriminate]).
+  pose proof (parse_sim g input orc Hcm Horc pf Hnodes (wfg_eolws g pf Hwf) fuel (init_ctx c) Hok0 (g_top g) false (init_st c) Hinv Htop) as HS.
   unfold run, spec_run_q. cbn [pos init_st] in HS.
   destruct (parse g input orc false fuel (g_top g) false (init_st c)) as [r s'|s'|w].
   - destruct HS as [ts [Es [Ee _]]]. exists ts, (pos s'). split; assumption.
